@@ -14,7 +14,7 @@
     assume a finite sum. *)
 From Coq Require Import List ZArith Reals Floats Bool.
 From Flocq Require Import Core.
-From Cfr.theories Require Import Num FInst Tree Strat Solve TruncFloat NormFloat EvalFloat SolveFloat.
+From Cfr.theories Require Import Num FInst Tree Strat Solve TruncFloat NormFloat EvalFloat SolveFloat ExternalFloat.
 Import ListNotations.
 Local Open Scope R_scope.
 Local Notation float := PrimFloat.float.
@@ -65,7 +65,7 @@ Proof. exact regret_match_float_nopos. Qed.
     of finite numbers in [0,1] and the returned bounds are finite and non-negative.  Proved for the vanilla and the
     CFR+ parameters outright, and for every parameter tuple whose discount factors are numbers in [0,1] and whose
     fallback is not the softmax (those go through exp/ln, which these theorems do not analyse).
-    External sampling is not covered. *)
+    External sampling: see the last section of this file ([theories/ExternalFloat.v]). *)
 Theorem C05_binary64_traversal_finite : forall (e : Z) (Mx Ms : nat),
   (-1074 <= e)%Z ->
   (Z.of_nat Mx < 2 ^ 53)%Z -> INR Mx * bpow radix2 e < bpow radix2 emax ->
@@ -141,6 +141,98 @@ Theorem C05_binary64_solve_any_params_valid :
   end.
 Proof. exact solve_single_float_valid_params. Qed.
 
+(** ** External sampling, and every method at once ([theories/ExternalFloat.v]).  A pass of [erec] for the updating
+    player moves only that player's cumulative regrets (by at most [rcount * 2^e]) and only the opponent's accumulated
+    strategy, for every oracle (in range or not) and any chance table; the two passes of an external iteration move
+    each accumulator exactly as far as one iteration of the other methods, so the same cap [reg_cap] serves the three
+    methods.  One more hypothesis for [External] with general parameters: player one's first [advance] discounts the
+    average strategy with iteration number 0 ([external.rs]: [if FIRST { it - 1 } else { it }]), so that factor must be
+    a number in [0,1] too ([strat_factor_ok p 0]; proved for vanilla and CFR+). *)
+Theorem C05_binary64_external_pass_finite : forall (e : Z) (Mx Ms : nat),
+  (-1074 <= e)%Z ->
+  (Z.of_nat Mx < 2 ^ 53)%Z -> INR Mx * bpow radix2 e < bpow radix2 emax ->
+  (Z.of_nat Ms < 2 ^ 53)%Z ->
+  forall (chance : list (list float)) (draw : @oracle FNum) (cpass ppass : N) (noff : nat) (me : bool),
+  forall n : @node FNum, PayOK (bpow radix2 e) n ->
+  forall (st : @pstate FNum) (ra sa rp sp : nat),
+  StOK2 e me ra sa rp sp st ->
+  (nleaves n <= Mx)%nat -> (ra + rcount n <= Mx)%nat -> (sp + scount n <= Ms)%nat ->
+  let r := @erec FNum chance draw cpass ppass noff me n st in
+  Ffin (fst r) /\ Rabs (FR (fst r)) <= INR (nleaves n) * bpow radix2 e /\
+  StOK2 e me (ra + rcount n) sa rp (sp + scount n) (snd r).
+Proof. exact erec_float_finite. Qed.
+
+Theorem C05_binary64_solve_every_method_vanilla_valid :
+  forall (g : @Tree.game FNum) (m : method) (draw : @oracle FNum) (budget : nat)
+         (stop : float -> bool) (e : Z),
+  TblOK (g_chance g) -> arities_small g -> (-1074 <= e)%Z ->
+  PayOK (bpow radix2 e) (g_root g) ->
+  (Z.of_nat budget < 2 ^ 53)%Z ->
+  (Z.of_nat (budget * scount (g_root g)) < 2 ^ 53)%Z ->
+  (Z.of_nat (reg_cap g budget) < 2 ^ 53)%Z ->
+  INR (reg_cap g budget) * bpow radix2 e < bpow radix2 emax ->
+  let res := @solve_single FNum g m draw (@p_vanilla FNum) budget stop in
+  Forall fin01 (fst (fst (fst res))) /\
+  Forall fin01 (snd (fst (fst res))) /\
+  match snd (fst res) with
+  | None => True
+  | Some (r1, r2) =>
+      (Ffin r1 /\ 0 <= FR r1 <= INR (reg_cap g budget) * bpow radix2 e) /\
+      (Ffin r2 /\ 0 <= FR r2 <= INR (reg_cap g budget) * bpow radix2 e)
+  end.
+Proof. exact solve_single_float_valid_all. Qed.
+
+Theorem C05_binary64_solve_every_method_cfr_plus_valid :
+  forall (g : @Tree.game FNum) (m : method) (draw : @oracle FNum) (budget : nat)
+         (stop : float -> bool) (e : Z),
+  TblOK (g_chance g) -> arities_small g -> (-1074 <= e)%Z ->
+  PayOK (bpow radix2 e) (g_root g) ->
+  (Z.of_nat budget + 1 < 2 ^ 53)%Z ->
+  (Z.of_nat (budget * scount (g_root g)) < 2 ^ 53)%Z ->
+  (Z.of_nat (reg_cap g budget) < 2 ^ 53)%Z ->
+  INR (reg_cap g budget) * bpow radix2 e < bpow radix2 emax ->
+  let res := @solve_single FNum g m draw (@p_cfr_plus FNum) budget stop in
+  Forall fin01 (fst (fst (fst res))) /\
+  Forall fin01 (snd (fst (fst res))) /\
+  match snd (fst res) with
+  | None => True
+  | Some (r1, r2) =>
+      (Ffin r1 /\ 0 <= FR r1 <= INR (reg_cap g budget) * bpow radix2 e) /\
+      (Ffin r2 /\ 0 <= FR r2 <= INR (reg_cap g budget) * bpow radix2 e)
+  end.
+Proof. exact solve_single_float_valid_cfr_plus_all. Qed.
+
+Theorem C05_binary64_solve_every_method_any_params_valid :
+  forall (g : @Tree.game FNum) (m : method) (draw : @oracle FNum) (p : @params FNum)
+         (budget : nat) (stop : float -> bool) (e : Z),
+  nosoftmax p ->
+  (forall k : nat, (k < budget)%nat -> disc_ok p (N.of_nat (S k)) (N.of_nat (S k))) ->
+  (m = External -> strat_factor_ok p 0%N) ->
+  TblOK (g_chance g) -> arities_small g -> (-1074 <= e)%Z ->
+  PayOK (bpow radix2 e) (g_root g) ->
+  (Z.of_nat budget < 2 ^ 53)%Z ->
+  (Z.of_nat (budget * scount (g_root g)) < 2 ^ 53)%Z ->
+  (Z.of_nat (reg_cap g budget) < 2 ^ 53)%Z ->
+  INR (reg_cap g budget) * bpow radix2 e < bpow radix2 emax ->
+  let res := @solve_single FNum g m draw p budget stop in
+  Forall fin01 (fst (fst (fst res))) /\
+  Forall fin01 (snd (fst (fst res))) /\
+  match snd (fst res) with
+  | None => True
+  | Some (r1, r2) =>
+      (Ffin r1 /\ 0 <= FR r1 <= INR (reg_cap g budget) * bpow radix2 e) /\
+      (Ffin r2 /\ 0 <= FR r2 <= INR (reg_cap g budget) * bpow radix2 e)
+  end.
+Proof. exact solve_single_float_valid_params_all. Qed.
+
+(** non-vacuity: the example game of [SolveFloat.v] solved by external sampling for ten iterations under an oracle that
+    alternates children; all hypotheses discharged by the decidable checkers *)
+Example C05_binary64_external_example_runs :
+  let res := @solve_single FNum exs_g External exe_draw (@p_vanilla FNum) 10 (fun _ => false) in
+  Forall fin01 (fst (fst (fst res))) /\ Forall fin01 (snd (fst (fst res))) /\
+  match snd (fst res) with None => True | Some (r1, r2) => finnn r1 /\ finnn r2 end.
+Proof. exact exe_valid. Qed.
+
 Print Assumptions C05_binary64_traversal_finite.
 Print Assumptions C05_binary64_solve_vanilla_valid.
 Print Assumptions C05_binary64_solve_cfr_plus_valid.
@@ -151,3 +243,8 @@ Print Assumptions C05_binary64_returned_rows_sum.
 Print Assumptions C05_binary64_regret_matching_valid.
 Print Assumptions C05_binary64_regret_matching_sum.
 Print Assumptions C05_binary64_no_positive_regret_means_none.
+Print Assumptions C05_binary64_external_pass_finite.
+Print Assumptions C05_binary64_solve_every_method_vanilla_valid.
+Print Assumptions C05_binary64_solve_every_method_cfr_plus_valid.
+Print Assumptions C05_binary64_solve_every_method_any_params_valid.
+Print Assumptions C05_binary64_external_example_runs.
